@@ -438,7 +438,15 @@ def _s7_call_forms(program, res):
             names = {n_.id for n_ in ast.walk(hd.type) if isinstance(n_, ast.Name)} if hd.type is not None else {"*"}
             if not ({"AssertionError", "Exception", "*"} & names):
                 continue
-            if any(isinstance(x, ast.Raise) for st in hd.body for x in ast.walk(st)):
+            # the wrong number of arguments (TypeError of the call itself) is excused for the n-ary names only: a None among the arguments is a reason to keep
+            # the plain form when the method *asserts* on it, not a licence for round(x, 2, None) or log(x, None)
+            if "TypeError" in names and any(isinstance(x, ast.Raise) for st in hd.body for x in ast.walk(st)) \
+                    and any(isinstance(t_if, ast.If) and any(isinstance(c_, ast.Compare) and isinstance(c_.ops[0], ast.Is) and isinstance(c_.comparators[0], ast.Constant)
+                                                             and c_.comparators[0].value is None for c_ in ast.walk(t_if.test)) for st in hd.body for t_if in ast.walk(st)):
+                res.fail_at("C13-S6", w, "function-form-arity-rescued-by-none",
+                            f"`except {unparse(hd.type)}:` lets a None argument excuse the TypeError of a call with the wrong number of arguments: round(x, 2, None), log(x, None), "
+                            f"mean(x, None) are accepted as plain function calls and the executors disagree silently (Pandas log(x), SQLite NULL)", hd)
+            elif any(isinstance(x, ast.Raise) for st in hd.body for x in ast.walk(st)):
                 res.ok("C13-S6", "a refusal of the Term method is passed on unless the form is one the plain function form is kept for")
             else:
                 res.fail_at("C13-S6", w, "function-form-swallows-method-refusal",
